@@ -18,14 +18,14 @@ use std::io::Write;
 pub const META_C16: Meta = Meta {
     id: "C16",
     level: "exploration",
-    rule: "Exhaustive: every list of 1-3 elements over codings {gzip, identity, *, br, deflate, x-gzip} (thorough: also every list of 4 elements over {gzip, identity, *, br}) x weights {none, 0, 0., 0.0, 0.000, 0.001, 0.009, 0.01, 0.05, 0.1, 0.5, 0.999, 1, 1., 1.000} (one-, two- and three-decimal spellings whose order a scaling error would change), rendered with a rotating set of optional-whitespace patterns around ',' and ';'; every pair of the 1001 qvalues for gzip vs identity (and adjacent pairs with *); absent and empty header; proptest for longer lists and random whitespace; arbitrary HeaderValue bytes for the no-panic clause. Oracle: independent evaluator in thousandths (gzip's quality else *'s else unacceptable; identity's else *'s else least-preferred acceptable; gzip > 0 and gzip >= identity); a coding listed twice admits the answers of either occurrence. Non-trivial = at least two of {gzip, identity, *} occur, at least one with a weight; distinct by header value.",
+    rule: "Exhaustive: every list of 1-3 elements over codings {gzip, identity, *, br, deflate, x-gzip} (thorough: also every list of 4 elements over {gzip, identity, *, br}) x weights {none, 0, 0., 0.0, 0.000, 0.001, 0.009, 0.01, 0.05, 0.1, 0.5, 0.999, 1, 1., 1.000} (one-, two- and three-decimal spellings whose order a scaling error would change), rendered with a rotating set of optional-whitespace patterns around ',' and ';'; every pair of the 1001 qvalues for gzip vs identity (and adjacent pairs with *); absent and empty header; a deciding element after k in {0..100} irrelevant elements, with and without an earlier relevant element (position independence); proptest for lists of up to 40 elements and random whitespace; arbitrary HeaderValue bytes for the no-panic clause. Oracle: independent evaluator in thousandths (gzip's quality else *'s else unacceptable; identity's else *'s else least-preferred acceptable; gzip > 0 and gzip >= identity); a coding listed twice admits the answers of either occurrence. Non-trivial = at least two of {gzip, identity, *} occur, at least one with a weight; distinct by header value.",
     assumptions: &["codings and 'q' are lower case, as in the statement's domain", "a coding listed more than once: any answer consistent with one choice of occurrence is accepted"],
 };
 
 pub const META_C17: Meta = Meta {
     id: "C17",
     level: "exploration",
-    rule: "Cases: Accept-Encoding from the C16 generators (and absent, and arbitrary bytes) x gzip level 0..=9 x chunk size {1,16,4096} x method {GET, HEAD, POST} x request given as Request and as Parts x builder call histories (earlier with_gzip_level calls overridden by the last one, with_chunk_size before or after) x small payloads of four classes. Oracle: Vary lists accept-encoding; Content-Encoding: gzip present iff should_gzip(headers) and level > 0 (the crate's own function, and on grammatical values also the C16 reference); no other Content-Encoding; after writing and dropping the writer the body is one gzip member decoding to the payload iff the header says gzip, otherwise the payload verbatim; Request and Parts agree; every non-HEAD method gets a writer. Non-trivial = weighted Accept-Encoding, or level 0 with gzip preferred; distinct by fingerprint of case.",
+    rule: "Cases: Accept-Encoding from the C16 generators (and absent, and arbitrary bytes) x gzip level 0..=9 x chunk size {1,16,4096} x method {GET, HEAD, POST} x request given as Request and as Parts x the header given as one, two or three field lines x builder call histories (earlier with_gzip_level calls overridden by the last one, with_chunk_size before or after) x small payloads of four classes. Oracle: Vary lists accept-encoding; Content-Encoding: gzip present iff should_gzip(headers) and level > 0 (the crate's own function, and on grammatical values also the C16 reference); no other Content-Encoding; after writing and dropping the writer the body is one gzip member decoding to the payload iff the header says gzip, otherwise the payload verbatim; Request and Parts agree; every non-HEAD method gets a writer. Non-trivial = weighted Accept-Encoding, or level 0 with gzip preferred; distinct by fingerprint of case.",
     assumptions: &["gzip level within the documented 0..=9"],
 };
 
@@ -166,6 +166,20 @@ fn call_should_gzip(v: Option<&[u8]>) -> Result<Option<bool>, String> {
     crate::panics::guard(|| http_serve::should_gzip(&h)).map(Some)
 }
 
+/// `should_gzip` on a header map holding these `Accept-Encoding` field lines, in order.
+fn call_should_gzip_lines(lines: &[&[u8]]) -> Result<Option<bool>, String> {
+    let mut h = http::HeaderMap::new();
+    for v in lines {
+        match http::HeaderValue::from_bytes(v) {
+            Ok(hv) => {
+                h.append(http::header::ACCEPT_ENCODING, hv);
+            }
+            Err(_) => return Ok(None),
+        }
+    }
+    crate::panics::guard(|| http_serve::should_gzip(&h)).map(Some)
+}
+
 pub fn check_c16(v: &Option<Bs>, acc: &mut Acc) -> Check {
     let raw = v.as_ref().map(|b| &b.0[..]);
     let got = match call_should_gzip(raw) {
@@ -213,6 +227,7 @@ pub fn ae_strategy() -> BoxedStrategy<Option<Bs>> {
         1 => Just(Some(Bs::s(""))),
         8 => elems_strategy(4).prop_map(|s| Some(Bs::s(&s))),
         3 => elems_strategy(8).prop_map(|s| Some(Bs::s(&s))),
+        2 => elems_strategy(40).prop_map(|s| Some(Bs::s(&s))),
         // random whitespace runs
         2 => (elems_strategy(4), vec(prop_oneof![Just(' '), Just('\t')], 0..3)).prop_map(|(s, ws)| {
             let w: String = ws.into_iter().collect();
@@ -296,6 +311,29 @@ pub fn run_c16(cx: &Cx) -> Acc {
             }
         }
     }));
+    // List *length*: a deciding element after k elements that do not matter (other codings), with
+    // or without an earlier relevant element of another coding.
+    let fillers: Vec<usize> = vec![0, 1, 2, 3, 5, 7, 8, 9, 15, 16, 17, 31, 32, 33, 63, 64, 100];
+    acc.merge(par_units(cx, "long-lists", &fillers, true, "[relevant element]? + k other codings + every element, k in {0..100}: position independence", |cx, &k, acc| {
+        let relevant: Vec<(usize, usize)> = (0..3).flat_map(|c| (0..WEIGHTS.len()).map(move |w| (c, w))).collect();
+        for first in std::iter::once(None).chain(relevant.iter().copied().map(Some)) {
+            for last_c in 0..CODINGS.len() {
+                if first.map_or(false, |(c, _)| c == last_c) {
+                    continue; // the same coding twice admits either occurrence: says nothing
+                }
+                for last_w in 0..WEIGHTS.len() {
+                    let mut list: Vec<(usize, usize)> = Vec::new();
+                    list.extend(first);
+                    for i in 0..k {
+                        list.push((3 + i % 3, if i % 4 == 3 { 7 } else { 0 }));
+                    }
+                    list.push((last_c, last_w));
+                    let v = Some(Bs::s(&render(&list, k + last_w)));
+                    acc.run_case(cx, "long-lists", &v, |acc| check_c16(&v, acc));
+                }
+            }
+        }
+    }));
     let fixed: Vec<Option<Bs>> = vec![None, Some(Bs::s("")), Some(Bs::s(" ")), Some(Bs::s("\t"))];
     acc.merge(par_units(cx, "absent-empty", &fixed, true, "absent, empty and blank header", |cx, v, acc| {
         acc.run_case(cx, "absent-empty", v, |acc| check_c16(v, acc));
@@ -343,6 +381,9 @@ pub struct Case17 {
     /// write_vectored with two slices split at `payload_len * 3 / 4`
     #[serde(default)]
     pub write_mode: u8,
+    /// further `Accept-Encoding` field lines after the first (`HeaderMap::append`)
+    #[serde(default)]
+    pub more_lines: Vec<Bs>,
 }
 
 struct Built {
@@ -357,6 +398,9 @@ fn build17(c: &Case17, as_parts: bool, payload: &[u8]) -> Result<Built, String> 
         let mut b = http::Request::builder().method(c.method.as_str()).uri("/");
         if let Some(ae) = &c.accept_encoding {
             b = b.header("accept-encoding", http::HeaderValue::from_bytes(&ae.0).unwrap());
+        }
+        for l in &c.more_lines {
+            b = b.header("accept-encoding", http::HeaderValue::from_bytes(&l.0).unwrap());
         }
         let req = b.body(()).unwrap();
         let builder = if as_parts {
@@ -419,7 +463,8 @@ fn build17(c: &Case17, as_parts: bool, payload: &[u8]) -> Result<Built, String> 
 
 pub fn check_c17(c: &Case17, acc: &mut Acc) -> Check {
     let raw = c.accept_encoding.as_ref().map(|b| &b.0[..]);
-    let sg = match call_should_gzip(raw) {
+    let lines: Vec<&[u8]> = raw.into_iter().chain(c.more_lines.iter().map(|b| &b.0[..])).collect();
+    let sg = match call_should_gzip_lines(&lines) {
         Ok(Some(b)) => b,
         Ok(None) => {
             acc.count("invalid-header-value-skipped");
@@ -502,7 +547,7 @@ pub fn check_c17(c: &Case17, acc: &mut Acc) -> Check {
         what()
     );
     // On grammatical values the crate's should_gzip must agree with the reference (else C16 fails; counted here).
-    if let Some(r) = reference(raw) {
+    if let Some(r) = reference(raw).filter(|_| c.more_lines.is_empty()) {
         if !r.contains(&sg) {
             acc.count("should_gzip-disagrees-with-reference(see C16)");
         }
@@ -514,6 +559,18 @@ pub fn check_c17(c: &Case17, acc: &mut Acc) -> Check {
 }
 
 fn c17_strategy() -> BoxedStrategy<Case17> {
+    // a quarter of the cases repeat the header: one or two more field lines
+    (c17_single_line_strategy(), prop_oneof![3 => Just(vec![]), 1 => vec(ae_strategy().prop_filter_map("absent", |v| v), 1..=2)])
+        .prop_map(|(mut c, more)| {
+            if c.accept_encoding.is_some() {
+                c.more_lines = more;
+            }
+            c
+        })
+        .boxed()
+}
+
+fn c17_single_line_strategy() -> BoxedStrategy<Case17> {
     (
         ae_strategy(),
         prop_oneof![2 => Just(0u32), 5 => 1u32..=9],
@@ -535,6 +592,7 @@ fn c17_strategy() -> BoxedStrategy<Case17> {
             earlier_levels,
             chunk_last,
             write_mode,
+            more_lines: vec![],
         })
         .boxed()
 }
@@ -559,6 +617,7 @@ pub fn run_c17(cx: &Cx) -> Acc {
                         earlier_levels: vec![],
                         chunk_last: false,
                         write_mode: (level as u8 + chunk as u8) % 3,
+                        more_lines: vec![],
                     };
                     acc.run_case(cx, "enumerated", &c, |acc| check_c17(&c, acc));
                     // the level set last wins: every earlier level, both call orders
@@ -567,6 +626,33 @@ pub fn run_c17(cx: &Cx) -> Acc {
                             let c2 = Case17 { earlier_levels: vec![earlier], chunk_last: earlier % 2 == 0, ..c.clone() };
                             acc.run_case(cx, "enumerated", &c2, |acc| check_c17(&c2, acc));
                         }
+                    }
+                }
+            }
+        }
+    }));
+    // The header repeated: every pair and triple of field lines over a small alphabet.
+    let lines: Vec<&str> = vec!["gzip", "gzip;q=0", "identity", "identity;q=0", "*", "*;q=0", "br", "", "gzip;q=0.5", "identity;q=0.6"];
+    acc.merge(par_units(cx, "repeated-header", &lines, true, "2-3 Accept-Encoding field lines over 10 values x level {0,1,6} x {GET,HEAD,POST}: the coding follows should_gzip(headers) for the whole map", |cx, first, acc| {
+        for second in &lines {
+            for third in std::iter::once(None).chain(lines.iter().map(Some)) {
+                for level in [0u32, 1, 6] {
+                    for method in ["GET", "HEAD", "POST"] {
+                        let mut more = vec![Bs::s(second)];
+                        more.extend(third.map(|t| Bs::s(t)));
+                        let c = Case17 {
+                            accept_encoding: Some(Bs::s(first)),
+                            level,
+                            chunk: 16,
+                            method: method.into(),
+                            payload: crate::props::stream::Payload::Mixed,
+                            payload_len: 300,
+                            earlier_levels: vec![],
+                            chunk_last: false,
+                            write_mode: 0,
+                            more_lines: more,
+                        };
+                        acc.run_case(cx, "repeated-header", &c, |acc| check_c17(&c, acc));
                     }
                 }
             }
@@ -587,6 +673,7 @@ pub fn run_c17(cx: &Cx) -> Acc {
             earlier_levels: vec![],
             chunk_last: false,
             write_mode,
+            more_lines: vec![],
         };
         acc.run_case(cx, "large-payloads", &c, |acc| check_c17(&c, acc));
     }));
